@@ -18,7 +18,8 @@ the target), `atomicReplace` the repaired code (write `p.tmp`, `os.replace`, rem
 suffix; this is what /repo does since `afb726d`).  The full statements are proved for
 `atomicReplace`; for `inPlace` they are FALSE (machine-checked witnesses below) and hold under
 explicit hypotheses (`_partial`).  A second switch `Cfg.sweep` says whether `delete` reaches
-`_delete` unconditionally (proposed repair) or only when `_has_saved_content` (the tree as it is:
+`_delete` also when only a leftover of an interrupted save exists (proposed repair) or only when
+`_has_saved_content` (the tree as it is:
 `Cfg.current = ⟨atomicReplace, false⟩`); the durability theorems hold for both values, the full
 delete statement only with `sweep` (witness `C19_delete_leftover_witness`).
 
@@ -274,7 +275,8 @@ theorem C19_leftover_counting_poisons_autoload :
 def C19DeleteStatement (cfg : Cfg) : Prop :=
   ∀ (cls : Cls) (ops : List Op), deleteFS cfg (run cfg (.init cls) ops).fs = FS.init
 
-/-- with the delete repair (`_delete` reached unconditionally) — in fact from any file-system state -/
+/-- with the delete repair (`_delete` is reached when a final-name file OR a leftover exists) — in fact from any
+file-system state -/
 theorem C19_delete_cleans_full : C19DeleteStatement Cfg.swept :=
   fun _ _ => delete_all_sweep .atomicReplace _ (Or.inl rfl)
 
